@@ -86,7 +86,7 @@ class Row(Vector):
 	def __init__(self, table, index=0):
 		# SNAPSHOT: Grab raw column lists for speed
 		self._raw_cols = [col._underlying for col in table._underlying]
-		self._column_map = table._column_map
+		self._column_map = table._refresh_column_map()
 		self._index = index
 		
 		# Smart Dtype Inference (Runs once per table iteration/access)
@@ -294,11 +294,17 @@ class Table(Vector):
 
 		return column_map
 	
+	def _refresh_column_map(self):
+		"""Return the column map, rebuilding (and storing) it when a column was renamed."""
+		if self._column_map is None or any(col._wild for col in self._underlying or []):
+			self._column_map = self._build_column_map()
+		return self._column_map
+
 	def __dir__(self):
 		"""Return list of available attributes including sanitized column names."""
 		# Use object.__dir__ to get instance attributes, then add column names
 		base_attrs = object.__dir__(self)
-		return set(list(self._build_column_map().keys()) + base_attrs)
+		return set(list(self._refresh_column_map().keys()) + base_attrs)
 	
 	def column_names(self):
 		"""Return list of column names (original names, not sanitized).
@@ -319,8 +325,7 @@ class Table(Vector):
 	def __getattr__(self, attr):
 		"""Access columns by sanitized attribute name using pre-computed column map."""
 		# Check if any column has been renamed and rebuild map if needed
-		if any(col._wild for col in self._underlying or []):
-			self._column_map = self._build_column_map()
+		self._refresh_column_map()
 
 		# Parse for indexed accessor pattern (e.g., 'total__5')
 		base_name, col_idx = _parse_indexed_attr(attr)
@@ -406,6 +411,7 @@ class Table(Vector):
 		
 		# After initialization, check if setting an existing column
 		if self._column_map is not None:
+			self._refresh_column_map()
 			# Parse for indexed accessor pattern (e.g., 'total__5')
 			base_name, col_idx_indexed = _parse_indexed_attr(attr)
 			
@@ -720,6 +726,7 @@ class Table(Vector):
 		# This replicates the lookup logic from __getitem__
 		target_indices = []
 		n_cols = len(self._underlying)
+		self._refresh_column_map()
 		
 		if isinstance(col_spec, slice):
 			target_indices = list(range(n_cols)[col_spec])
